@@ -23,6 +23,11 @@ PROOF_TARGETS = ["Props/C09.vo"]
 PROPS_FILE = "Props/C09.v"
 PROPS_MODULE = "Props.C09"
 
+RULE = ""
+ASSUMPTIONS = []
+TRUSTED = []
+MANIFEST = dict(text="", note="", technique="", design="4/C09")
+
 SOURCES = ["osu", "qua", "sm", "bms", "o2j"]
 TARGETS = ["osu", "qua", "sm", "bms"]
 PAIRS = [(a, b) for a in SOURCES for b in TARGETS if a != b]          # the 16 converters
@@ -57,8 +62,19 @@ def time_of(t0, tempo, beat):
     return t + (beat - b0) * Fr(60000) / bpm
 
 
-def gen_abstract(rng, keys, *, exact=False, t0_zero=False, tempo_style=None, grid=None, full_cols=True, max_notes=None,
-                 int_bpm=False, bpm3=True):
+def gen_abstract(rng, keys, **kw):
+    """see _gen_abstract; re-drawn until the tempo points are further apart than four 1/96-beat steps of the slowest tempo"""
+    for _ in range(50):
+        ab = _gen_abstract(rng, keys, **kw)
+        tp = [(time_of(ab["t0"], ab["tempo"], b), v) for b, v in ab["tempo"]]
+        slow = max(Fr(60000) / v for _, v in tp)
+        if all(t2 - t1 > 4 * slow / 96 for (t1, _), (t2, _) in zip(tp, tp[1:])):
+            return ab
+    return ab
+
+
+def _gen_abstract(rng, keys, *, exact=False, t0_zero=False, tempo_style=None, grid=None, full_cols=True, max_notes=None,
+                  int_bpm=False, bpm3=True, long_bpm=False, start_beat=0, t0_nonzero=False, big_ratio=False):
     """A small musical chart: tempo script in beats (first change at beat 0, which sounds at t0 ms), notes on a beat grid.
     Per column the notes are laid out along a cursor, so long notes of a column never overlap and no two objects share a
     position.  full_cols: the last column is used (converters derive the key count from the largest column used)."""
@@ -73,9 +89,9 @@ def gen_abstract(rng, keys, *, exact=False, t0_zero=False, tempo_style=None, gri
         r = rng.random()
         if r < 0.5:
             return Fr(rng.choice(EXACT_BPMS))
-        if r < 0.93 or bpm3:
-            return Fr(rng.choice(ROUND_BPMS))
-        return Fr(rng.choice(LONG_BPMS))
+        if long_bpm:
+            return Fr(rng.choice(LONG_BPMS))
+        return Fr(rng.choice(ROUND_BPMS))
     tempo = [(Fr(0), bpm())]
     for _ in range(n_t - 1):
         step = {"lines": Fr(4) * rng.choice([1, 1, 2, 3]), "beats": Fr(rng.choice([1, 2, 3, 5, 6])),
@@ -85,11 +101,12 @@ def gen_abstract(rng, keys, *, exact=False, t0_zero=False, tempo_style=None, gri
         while v == tempo[-1][1]:
             v = bpm() if not int_bpm else tempo[-1][1] + 30
         tempo.append((tempo[-1][0] + step, v))
-    if style == "eighth" and rng.random() < 0.5:                       # a large tempo ratio at an x.125 beat
-        tempo[0] = (Fr(0), Fr(60))
-        tempo[1] = (tempo[1][0], Fr(240) if not int_bpm else Fr(240))
+    if big_ratio:                                                      # a large tempo ratio at an x.125 beat
+        tempo = [(Fr(0), Fr(60)), (tempo[1][0], Fr(240))] + [(b, Fr(240) + 60 * i) for i, (b, _) in enumerate(tempo[2:], 1)]
     if t0_zero:
         t0 = Fr(0)
+    elif t0_nonzero:
+        t0 = Fr(rng.choice([500, 1000, 37, 1250, 2000, 333, -250, 64]))
     else:
         t0 = Fr(rng.choice([0, 0, 500, 1000, 37, 1250, 2000, 333, -250, 64]))
         if not exact and rng.random() < 0.2:
@@ -103,8 +120,8 @@ def gen_abstract(rng, keys, *, exact=False, t0_zero=False, tempo_style=None, gri
     budget = max_notes or rng.choice([2, 4, 6, 9])
     notes = []
     for c in use:
-        cur = Fr(rng.randrange(0, 4 * g), g)
-        while cur < last_beat and len(notes) < budget:
+        cur = Fr(rng.randrange(0, 4 * g), g) + start_beat
+        while cur < last_beat + start_beat and len(notes) < budget:
             if rng.random() < 0.3:
                 ln = Fr(rng.randint(1, 3 * g), g) if g > 1 else Fr(rng.randint(1, 3))
                 ln = max(ln, Fr(1, 4))
@@ -113,7 +130,7 @@ def gen_abstract(rng, keys, *, exact=False, t0_zero=False, tempo_style=None, gri
             else:
                 notes.append([c, cur, None])
             cur += max(Fr(rng.randint(1, 4 * g), g), Fr(1, 4))
-    if notes and rng.random() < 0.35:                                    # an object exactly at beat 0
+    if notes and rng.random() < 0.35 and not start_beat:                 # an object exactly at beat 0
         notes[0][1] = Fr(0)
         c0 = notes[0][0]
         others = [n for n in notes[1:] if n[0] == c0]
@@ -193,7 +210,7 @@ def render_osu(rng, ab, mode="int", extras=True):
     return lines, tl
 
 
-def render_qua(rng, ab, extras=True):
+def render_qua(rng, ab, extras=True, sv_early=False):
     k = ab["keys"]
     doc = {"AudioFile": rng.choice(["audio.mp3", "a b.ogg"]), "Mode": f"Keys{k}", "Title": rng.choice(WORDS),
            "Artist": rng.choice(WORDS), "Creator": rng.choice(WORDS), "DifficultyName": rng.choice(WORDS),
@@ -206,7 +223,9 @@ def render_qua(rng, ab, extras=True):
         tps.append({"StartTime": t, "Bpm": vv})
         tl["tempo"].append((Fr(t), Fr(vv)))
         if extras and rng.random() < 0.3:
-            svs.append({"StartTime": t + rng.choice([0, 250, -100]), "Multiplier": rng.choice([0.5, 2.0, 1.25])})
+            svs.append({"StartTime": t + rng.choice([0, 250, 40]), "Multiplier": rng.choice([0.5, 2.0, 1.25])})
+    if sv_early:
+        svs.insert(0, {"StartTime": tps[0]["StartTime"] - rng.choice([100, 1, 2500]), "Multiplier": 1.5})
     for (c, b, ln) in ab["notes"]:
         t = int(_jit(rng, time_of(ab["t0"], ab["tempo"], b), "int"))
         rec = {"StartTime": t, "Lane": c + 1, "KeySounds": []}
@@ -332,16 +351,17 @@ def _layout(name):
     return getattr(BMSChannel, name)
 
 
-def render_bms(rng, ab, lname, sample_style="ascii"):
+def render_bms(rng, ab, lname, sample_style="ascii", headers="all"):
     """ab must have t0 = 0.  Tempo values: channel 03 for integers <= 255, else the #BPMxx table (channel 08)."""
     cfg = _layout(lname)
     chan = {v: k.decode() for k, v in cfg.items() if isinstance(v, int) and not isinstance(v, bool)}
     hdr = []
-    if rng.random() < 0.9:
+    drop = rng.choice(["TITLE", "ARTIST", "PLAYLEVEL"]) if headers == "drop" else None
+    if drop != "TITLE":
         hdr.append("#TITLE " + rng.choice(["take", "a b  c", "竹", "x", "[7KEYS] #1: intro"]))
-    if rng.random() < 0.8:
+    if drop != "ARTIST":
         hdr.append("#ARTIST " + rng.choice(["x", "立秋", "A B"]))
-    if rng.random() < 0.8:
+    if drop != "PLAYLEVEL":
         hdr.append("#PLAYLEVEL " + str(rng.choice([0, 3, 12])))
     hdr.append("#LNOBJ ZZ")
     wavs = {"ascii": ["kick.wav", "snare 01.wav"], "none": [], "sjis": ["ドラム.wav", "kick.wav"]}[sample_style]
@@ -408,7 +428,7 @@ def _bits(v):
     return struct.unpack("<I", struct.pack("<f", v))[0]
 
 
-def render_o2j(rng, abs3):
+def render_o2j(rng, abs3, first="mixed"):
     """abs3: three abstract charts (7 keys, t0 = 0), one per difficulty; they share the header tempo (= their first tempo)"""
     hb = _f32(abs3[0]["tempo"][0][1])
     hdr = {"song_id": rng.choice([0, 1, 300]), "signature": [111, 106, 110], "encode_version": _bits(_f32(2.9)), "genre": 2,
@@ -424,7 +444,8 @@ def render_o2j(rng, abs3):
         pk = []
         script = [(Fr(0), Fr(hb))]
         groups = {}
-        r0 = rng.random()                                      # first tempo of the difficulty: the header tempo alone (typical),
+        r0 = {"mixed": rng.random() * 0.85, "header": 0.0, "event": 0.9}[first]
+        #                                                        first tempo of the difficulty: the header tempo alone (typical),
         for i, (b, v) in enumerate(ab["tempo"]):               # a tempo event at position 0 repeating it, or one replacing it
             fv = Fr(_f32(v))
             if i == 0:
@@ -689,6 +710,8 @@ def tl_bms(lines, lname):
             for i in range(k):
                 d = data[2 * i:2 * i + 2]
                 if d != "00":
+                    if any(o[0] == Fr(4 * m) + Fr(4 * i, k) and o[1] == ch for o in objs):
+                        raise ValueError("two objects in one slot")
                     objs.append((Fr(4 * m) + Fr(4 * i, k), ch, d))
         else:
             sp = l[1:].split(" ", 1)
@@ -813,61 +836,541 @@ def _sjis_ok(s):
         return False
 
 
+def _ab_json(ab):
+    return {"keys": ab["keys"], "t0": _jfr(ab["t0"]), "tempo": [[_jfr(b), _jfr(v)] for b, v in ab["tempo"]],
+            "notes": [[c, _jfr(b), None if ln is None else _jfr(ln)] for c, b, ln in ab["notes"]],
+            "grid": ab["grid"], "style": ab["style"], "exact": ab["exact"]}
+
+
+def _ab_from(j):
+    fj = F.frac_from_json
+    return {"keys": j["keys"], "t0": fj(j["t0"]), "tempo": [(fj(b), fj(v)) for b, v in j["tempo"]],
+            "notes": [(c, fj(b), None if ln is None else fj(ln)) for c, b, ln in j["notes"]],
+            "grid": j["grid"], "style": j["style"], "exact": j["exact"]}
+
+
+class _NoSjisWords:
+    """random.Random wrapper that re-draws words the target's charset cannot hold (BMS text is shift_jis)"""
+
+    def __init__(self, rng):
+        self._r = rng
+
+    def __getattr__(self, n):
+        return getattr(self._r, n)
+
+    def choice(self, seq):
+        for _ in range(20):
+            x = self._r.choice(seq)
+            if not isinstance(x, str) or _sjis_ok(x):
+                return x
+        return x
+
+
+def build_case(a, b, abs_json, rseed, opt):
+    """deterministic: the same abstract charts + render seed + options give the same source file"""
+    import random
+    rng = random.Random(rseed)
+    if b == "bms":
+        rng = _NoSjisWords(rng)
+    abs_ = [_ab_from(j) for j in abs_json]
+    ab = abs_[0]
+    keys = ab["keys"]
+    case = {"src": a, "tgt": b, "keys": keys, "dom": True, "scen": opt.get("scen", "clean"),
+            "gen": {"abs": abs_json, "rseed": rseed, "opt": opt}}
+    if a == "osu":
+        case["file"], tl = render_osu(rng, ab, mode=opt.get("mode", "int"))
+        tls = [tl]
+    elif a == "qua":
+        case["file"], tl = render_qua(rng, ab, sv_early=opt.get("sv_early", False))
+        tls = [tl]
+    elif a == "sm":
+        case["file"], tls = render_sm(rng, ab, ab2=abs_[1] if len(abs_) > 1 else None, stops=opt.get("stops", True),
+                                      extra_kinds=opt.get("extra_kinds", True))
+    elif a == "bms":
+        case["src_layout"] = opt["src_layout"]
+        case["file"], tl = render_bms(rng, ab, opt["src_layout"], sample_style=opt.get("sample_style", "ascii"),
+                                      headers=opt.get("headers", "all"))
+        tls = [tl]
+    else:
+        case["file"], tls = render_o2j(rng, abs_, first=opt.get("first", "mixed"))
+    case["shift"] = opt.get("shift", 0)
+    if b == "bms":
+        case["tgt_layout"] = opt["tgt_layout"]
+    case["tls"] = [_tl_json(t) for t in tls]
+    return case
+
+
 def _keys_for(rng, a, b):
-    """a key count both games support"""
+    """a key count both games have"""
     if a == "o2j":
         return 7
     if a == "qua" or b == "qua":
-        return rng.choice([4, 7]) if (a == "sm" or b == "sm" or rng.random() < 0.8) else 8
+        return rng.choice([4, 7])
     if a == "sm" or b == "sm":
         return rng.choice([4, 7, 4, 7, 6, 8, 3])
     return rng.choice([4, 7, 4, 7, 5, 9, 1, 10])                      # osu <-> bms
 
 
-def gen_case(rng, a, b, **kw):
-    exact = kw.get("exact", rng.random() < 0.45)
-    keys = kw.get("keys") or _keys_for(rng, a, b)
-    case = {"src": a, "tgt": b, "keys": keys}
-    t0_zero = kw.get("t0_zero", a in ("bms", "o2j") or (b == "bms" and rng.random() < 0.85) or (b == "sm" and rng.random() < 0.5))
-    opts = dict(exact=exact, t0_zero=t0_zero, tempo_style=kw.get("tempo_style"), grid=kw.get("grid"),
-                full_cols=kw.get("full_cols", rng.random() < 0.93), bpm3=kw.get("bpm3", rng.random() < 0.9))
-    ab = gen_abstract(rng, keys, **opts)
+# finding-directed scenarios: (name, applies(a, b), weight)
+SCENARIOS = [
+    ("t0", lambda a, b: a == "osu" and b == "sm"),                    # first tempo point not at 0 ms
+    ("sv_early", lambda a, b: a == "qua" and b == "sm"),              # a scroll velocity before the first tempo point
+    ("offline", lambda a, b: a in ("sm", "bms")),                     # tempo change off a measure line
+    ("topcol", lambda a, b: b == "sm" or (a == "bms" and b == "qua")),   # the top column unused
+    ("cs", lambda a, b: a == "sm" and b == "osu"),                    # key count other than 4
+    ("nohdr", lambda a, b: a == "bms"),                               # a BMS header line missing
+    ("sjis_wav", lambda a, b: a == "bms" and b == "osu"),             # non-ASCII sample name
+    ("ev0", lambda a, b: a == "o2j" and b == "bms"),                  # tempo event at position 0
+    ("eighth", lambda a, b: b == "sm" and a not in ("sm", "bms")),    # tempo x4 at an x.125 beat
+    ("bpm4", lambda a, b: b == "bms" and a not in ("sm", "bms")),     # tempo with more than three decimals
+    ("pad", lambda a, b: b == "sm"),                                  # empty leading measures, key count other than 4
+    ("nostops", lambda a, b: a == "sm"),                              # no #STOPS tag
+]
+
+
+def gen_case(rng, a, b, scen="clean"):
+    exact = rng.random() < 0.45
+    keys = _keys_for(rng, a, b)
+    opt = {"scen": scen}
+    kw = dict(exact=exact, full_cols=True)
+    kw["t0_zero"] = a in ("bms", "o2j") or b == "bms" or (a == "osu" and b == "sm")
+    if a in ("sm", "bms"):
+        kw["tempo_style"] = rng.choice(["one", "lines", "lines"])
+    if a == "sm" and b == "osu":
+        keys = 4
+    if a == "o2j" and b == "bms":
+        kw["exact"] = True
+        opt["first"] = "header"
+    if a == "o2j":
+        kw["max_notes"] = rng.choice([2, 4, 6])
     if a == "osu":
-        case["file"], tl = render_osu(rng, ab, mode=kw.get("mode") or rng.choice(["int", "int", "int", "frac", "exact"]))
-        tls = [tl]
-    elif a == "qua":
-        case["file"], tl = render_qua(rng, ab)
-        tls = [tl]
-    elif a == "sm":
-        ab2 = None
-        if rng.random() < 0.3:
-            ab2 = gen_abstract(rng, keys, **opts)
-            ab2["tempo"], ab2["t0"] = ab["tempo"], ab["t0"]
-        case["file"], tls = render_sm(rng, ab, ab2=ab2, stops=kw.get("stops", True), extra_kinds=kw.get("extra_kinds", True))
-    elif a == "bms":
-        ln = kw.get("src_layout") or rng.choice([l for l in LAYOUTS if LAYOUT_KEYS[l] >= keys])
-        case["src_layout"] = ln
-        case["file"], tl = render_bms(rng, ab, ln, sample_style=kw.get("sample_style") or rng.choice(["ascii", "ascii", "none", "sjis"]))
-        tls = [tl]
-    else:
-        abs3 = [ab] + [gen_abstract(rng, 7, **opts) for _ in range(2)]
-        case["file"], tls = render_o2j(rng, abs3)
-    case["shift"] = 0
+        opt["mode"] = rng.choice(["int", "int", "int", "frac", "exact"])
+    # ---- scenarios
+    if scen == "t0":
+        kw["t0_zero"], kw["t0_nonzero"] = False, True
+    elif scen == "sv_early":
+        opt["sv_early"] = True
+    elif scen == "offline":
+        kw["tempo_style"] = rng.choice(["beats", "half", "quarter"])
+    elif scen == "topcol":
+        kw["full_cols"] = False
+        if a != "o2j":
+            keys = 7 if (a == "qua" or b == "qua" or rng.random() < 0.5) else 4
+    elif scen == "cs":
+        keys = rng.choice([7, 6, 8, 3])
+    elif scen == "nohdr":
+        opt["headers"] = "drop"
+    elif scen == "sjis_wav":
+        opt["sample_style"] = "sjis"
+    elif scen == "ev0":
+        opt["first"] = "event"
+    elif scen == "eighth":
+        kw["tempo_style"], kw["big_ratio"] = "eighth", True
+    elif scen == "bpm4":
+        kw["exact"], kw["long_bpm"] = False, True
+    elif scen == "pad":
+        kw["start_beat"] = rng.choice([4, 8])
+        if a != "o2j":
+            keys = 7 if (a == "qua" or b == "qua") else rng.choice([7, 6, 8, 3])
+    elif scen == "nostops":
+        opt["stops"] = False
+    if a == "bms":
+        opt["src_layout"] = rng.choice([l for l in LAYOUTS if LAYOUT_KEYS[l] >= keys])
+        if "sample_style" not in opt:
+            opt["sample_style"] = rng.choice(["ascii", "ascii", "none"])
     if b == "bms":
-        case["shift"] = 1 if a == "o2j" else (kw.get("shift") if kw.get("shift") is not None else rng.choice([0, 0, 0, 1]))
-        if a == "sm":
-            case["shift"] = 0
-        need = keys + case["shift"]
-        case["tgt_layout"] = kw.get("tgt_layout") or rng.choice([l for l in LAYOUTS if LAYOUT_KEYS[l] >= need])
-    case["tls"] = [_tl_json(t) for t in tls]
-    case["feat"] = {"style": ab["style"], "grid": ab["grid"], "t0": _jfr(ab["t0"]), "exact": exact}
-    return case
+        opt["shift"] = 1 if a == "o2j" else (0 if a == "sm" else rng.choice([0, 0, 0, 1]))
+        opt["tgt_layout"] = rng.choice([l for l in LAYOUTS if LAYOUT_KEYS[l] >= keys + opt["shift"]])
+    abs_ = [gen_abstract(rng, keys, **kw)]
+    if scen == "topcol":                                             # keep the top column(s) free
+        top = keys - rng.choice([1, 2, 3])
+        abs_[0]["notes"] = [(c % top, bt, ln) for (c, bt, ln) in abs_[0]["notes"]]
+        abs_[0]["notes"] = _dedup_notes(abs_[0]["notes"])
+    if a == "sm" and rng.random() < 0.3:
+        ab2 = gen_abstract(rng, keys, **kw)
+        ab2["tempo"], ab2["t0"] = abs_[0]["tempo"], abs_[0]["t0"]
+        abs_.append(ab2)
+    if a == "o2j":
+        abs_ += [gen_abstract(rng, 7, **kw) for _ in range(2)]
+    return build_case(a, b, [_ab_json(x) for x in abs_], rng.randrange(1 << 30), opt)
+
+
+def _dedup_notes(notes):
+    """after folding columns: keep, per column, only objects that do not touch an earlier one"""
+    out, busy = [], {}
+    for (c, bt, ln) in sorted(notes, key=lambda n: (n[1], n[0])):
+        end = bt + (ln or 0)
+        if all(bt > e + Fr(1, 4) or end + Fr(1, 4) < s0 for (s0, e) in busy.get(c, [])):
+            busy.setdefault(c, []).append((bt, end))
+            out.append((c, bt, ln))
+    return out
+
+
+def _foreign_cases(rng, n):
+    """files drawn from the other properties' own generators, for millisecond targets (those accept any timeline);
+    dom = False: they may lie outside the composition's domain (then only counted), spec is evaluated when they do not"""
+    from . import c01, c06, c07
+    out = []
+    for _ in range(n):
+        k = rng.choice([4, 7])
+        t = c01.gen_text(rng, rng.random() < 0.7, force=(k, (512 * rng.randrange(k) + 256) // k))
+        out.append({"src": "osu", "tgt": "qua", "keys": k, "dom": False, "scen": "c01", "file": t["lines"], "shift": 0, "n": 1})
+    for _ in range(n):
+        c = c07._case(rng)
+        out.append({"src": "o2j", "tgt": rng.choice(["osu", "qua"]), "keys": 7, "dom": False, "scen": "c07",
+                    "file": {"hdr": c["hdr"], "levels": c["levels"], "trail": c["trail"]}, "shift": 0, "n": 3})
+    for _ in range(n):
+        for _try in range(30):
+            doc = c06._gen_doc(rng)
+            lanes = [h.get("Lane", 1) for h in doc["HitObjects"]]
+            k = 4 if max(lanes + [1]) <= 4 else 7
+            if max(lanes + [1]) <= 7:
+                break
+        doc["Mode"] = f"Keys{k}"
+        out.append({"src": "qua", "tgt": "osu", "keys": k, "dom": False, "scen": "c06", "file": doc, "shift": 0, "n": 1})
+    return out
 
 
 def generate(rng, tier):
-    per = 14 if tier == "quick" else 400
+    clean, directed, foreign = (10, 2, 10) if tier == "quick" else (200, 30, 200)
     cases = []
     for (a, b) in PAIRS:
-        for _ in range(per):
+        for _ in range(clean):
             cases.append(gen_case(rng, a, b))
+        for name, applies in SCENARIOS:
+            if applies(a, b):
+                for _ in range(directed):
+                    cases.append(gen_case(rng, a, b, scen=name))
+    cases += _foreign_cases(rng, foreign)
     return cases
+
+
+# ====================================================================================== Coq side
+FMT = {"osu": "FOsu", "qua": "FQua", "sm": "FSM", "bms": "FBms", "o2j": "FO2j"}
+
+
+def _zl(l):
+    return "[" + ";".join(str(int(x)) if int(x) >= 0 else f"({int(x)})" for x in l) + "]"
+
+
+def _zi(x):
+    x = int(x)
+    return str(x) if x >= 0 else f"({x})"
+
+
+def _segs(line):
+    cps = [ord(c) for c in line]
+    segs, cur, i = [], [], 0
+    while i < len(cps):
+        j = i
+        while j < len(cps) and cps[j] == cps[i]:
+            j += 1
+        if j - i >= 8:
+            if cur:
+                segs.append("L" + _zl(cur))
+                cur = []
+            segs.append(f"R {cps[i]} {j - i}")
+        else:
+            cur.extend(cps[i:j])
+        i = j
+    if cur:
+        segs.append("L" + _zl(cur))
+    return "[" + ";".join(segs) + "]"
+
+
+def coq_lines(lines):
+    """distinct lines (run-length segments) + line numbers (decoded by pick_lines / mk_text)"""
+    tbl, idx, seen = [], [], {}
+    for l in lines:
+        if l not in seen:
+            seen[l] = len(tbl)
+            tbl.append(l)
+        idx.append(seen[l])
+    return "[" + ";".join(_segs(l) for l in tbl) + "] " + _zl(idx)
+
+
+def coq_tree(t, nm):
+    if t == "nan":
+        return "ynan"
+    if t == "null":
+        return "ynull"
+    if "b" in t:
+        return "(yb true)" if t["b"] else "(yb false)"
+    if "i" in t:
+        return f"(yi {_zi(t['i'])})"
+    if "f" in t:
+        n, d = t["f"]
+        return f"(yf ({_zi(n)}#{d}))"
+    if "s" in t:
+        return "(ys " + _zl([ord(c) for c in t["s"]]) + ")"
+    if "l" in t:
+        return "(yl [" + ";".join(coq_tree(x, nm) for x in t["l"]) + "])"
+    return "(ym [" + ";".join(f"({nm(k)},{coq_tree(v, nm)})" for k, v in t["m"]) + "])"
+
+
+def coq_ofile(f):
+    h = f["hdr"]
+    hdr = ("(fh " + " ".join([
+        _zi(h["song_id"]), _zl(h["signature"]), _zi(h["encode_version"]), _zi(h["genre"]), _zi(h["bpm"]), _zl(h["level"]),
+        _zl(h["event_count"]), _zl(h["note_count"]), _zl(h["measure_count"]), _zi(h["old_encode_version"]),
+        _zi(h["old_song_id"]), _zl(h["old_genre"]), _zi(h["bmp_size"]), _zi(h["old_file_version"]), _zl(h["title"]),
+        _zl(h["artist"]), _zl(h["noter"]), _zl(h["ojm_file"]), _zi(h["cover_size"]), _zl(h["time"]), _zl(h["note_offset"]),
+        _zi(h["cover_offset"])]) + ")")
+
+    def pkg(p):
+        ev = "[" + ";".join(f"({s},{_zl(b)})" for s, b in p["ev"]) + "]"
+        return f"pk {_zi(p['m'])} {_zi(p['ch'])} {_zi(p['n'])} {ev}"
+    return "(fl " + hdr + " [" + "; ".join("[" + "; ".join(pkg(p) for p in l) + "]" for l in f["levels"]) + "])"
+
+
+def coq_source(case):
+    from . import c06
+    a = case["src"]
+    if a == "osu":
+        return "(SOsu " + coq_lines(case["file"]) + ")"
+    if a == "qua":
+        return "(SQua " + coq_tree(c06.tj(case["file"]), c06._Names()) + ")"
+    if a == "sm":
+        return "(SSM " + coq_lines(case["file"].split("\n")) + ")"
+    if a == "bms":
+        return f"(SBms {LAYOUTS.index(case['src_layout'])}%nat " + coq_lines(case["file"]) + ")"
+    return "(SO2j " + coq_ofile(case["file"]) + ")"
+
+
+def coq_target(case, v):
+    from . import c06
+    b = case["tgt"]
+    if b == "osu":
+        return "(TOsu " + coq_lines(v) + ")"
+    if b == "qua":
+        return "(TQua " + coq_tree(v, c06._Names()) + ")"
+    if b == "sm":
+        return "(TSM " + coq_lines(v.split("\n")) + ")"
+    return f"(TBms {LAYOUTS.index(case['tgt_layout'])}%nat " + coq_lines(v) + ")"
+
+
+def n_targets(case):
+    return len(case["tls"]) if "tls" in case else case.get("n", 1)
+
+
+def emit_all(case, out):
+    src = coq_source(case)
+    tlay = LAYOUTS.index(case["tgt_layout"]) if case["tgt"] == "bms" else 0
+    head = (f"C09 {F.boolean(case.get('dom', True))} (1#1000000) {_zi(case['keys'])} {_zi(case['shift'])}")
+    terms = []
+    tg = out.get("targets")
+    for k in range(n_targets(case)):
+        if tg is None or k >= len(tg) or tg[k]["v"] is None:
+            o = "None"
+        else:
+            o = "(Some " + coq_target(case, tg[k]["v"]) + ")"
+        terms.append(f"({head} {k}%nat {src} {FMT[case['tgt']]} {tlay}%nat {o})%Z")
+    return terms
+
+
+# ====================================================================================== classification of failures
+def _src_tl(case, k):
+    if "tls" in case:
+        return _tl_from(case["tls"][k])
+    try:
+        if case["src"] == "osu":
+            return tl_osu(case["file"])
+        if case["src"] == "qua":
+            from . import c06
+            return tl_qua(c06.tj(case["file"]))
+    except Exception:
+        return None
+    return None
+
+
+def _first_abs(case, k):
+    g = case.get("gen")
+    if not g:
+        return None
+    abs_ = g["abs"]
+    return _ab_from(abs_[k] if k < len(abs_) else abs_[0])
+
+
+def _tempo_off_line(case, k):
+    ab = _first_abs(case, k)
+    if ab is None:
+        return False
+    tempo = _ab_from(case["gen"]["abs"][0])["tempo"] if case["src"] == "sm" else ab["tempo"]
+    return any(b % 4 != 0 for b, _ in tempo)
+
+
+def _max_col_keys(tl):
+    return (max(c for (_, c, _, _) in tl["notes"]) + 1) if tl["notes"] else None
+
+
+def diagnose(case, out, k):
+    """-> cause key of a failure of target k that is a known defect of the pinned tree (see docs/C09.md), else None.
+    A cause is accepted only when it EXPLAINS the failure: the timelines agree once the cause is compensated."""
+    a, b = case["src"], case["tgt"]
+    stl = _src_tl(case, k)
+    tg = out.get("targets")
+    exc = out.get("exc") if tg is None else (tg[k].get("exc") if k < len(tg) and tg[k]["v"] is None else None)
+    if tg is not None and k >= len(tg):
+        return None
+    # ---- the pipeline raised
+    if exc is not None:
+        if a == "sm" and exc.startswith("read: AttributeError") and "sorted" in exc and "#STOPS" not in case["file"]:
+            return "sm-read-no-stops-tag"
+        if a == "bms" and exc.startswith("convert: AttributeError") and "decode" in exc:
+            have = {l.split(" ")[0] for l in case["file"] if l.startswith("#")}
+            if not {"#TITLE", "#ARTIST", "#PLAYLEVEL"} <= have:
+                return "bms-header-missing"
+        if a == "bms" and b == "osu" and exc.startswith("convert: UnicodeDecodeError") and "ascii" in exc:
+            if any(l.startswith("#WAV") and not l.isascii() for l in case["file"]):
+                return "bms-sample-non-ascii"
+        if stl is not None and _max_col_keys(stl) is not None and _max_col_keys(stl) != case["keys"]:
+            if b == "sm" and (exc.startswith("write: TypeError") or (exc.startswith("convert: ValueError") and "isn't supported" in exc)):
+                return "keys-from-max-column"
+            if b == "qua" and exc.startswith("convert: ValueError") and "isn't supported" in exc:
+                return "keys-from-max-column"
+        return None
+    if stl is None:
+        return None
+    v = tg[k]["v"]
+    bound = bound_for(case, stl)
+    # ---- the target is not well-formed
+    try:
+        ttl = tl_target(case, v)
+    except Exception as e:
+        msg = str(e)
+        if b == "sm" and "row width" in msg and case["keys"] != 4 and "\n0000\n" in v:
+            return "sm-pad-width"
+        if b == "bms" and "two objects in one slot" in msg and a == "o2j" and _o2j_event_at_0(case, k):
+            return "o2j-tempo-at-0-duplicate"
+        return None
+    sh = case["shift"]
+    if match(stl, ttl, bound, shift=sh) is None:
+        return "?"                                       # python sees no mismatch (a corr-only failure): decided by the caller
+    st, tt = norm_tempo(stl["tempo"]), norm_tempo(ttl["tempo"])
+    # ---- StepMania #OFFSET is not the first tempo point
+    if b == "sm" and st and tt and tt[0][0] != st[0][0]:
+        dt = tt[0][0] - st[0][0]
+        if match(stl, ttl, bound, shift=sh, dt=dt) is None:
+            return {"osu": "sm-offset-zero", "qua": "sm-offset-stack-min"}.get(a)
+    # ---- SMToOsu leaves CircleSize at 4
+    if a == "sm" and b == "osu" and case["keys"] != 4:
+        folded = {"notes": [(kd, min(c, 3), t, ln) for (kd, c, t, ln) in stl["notes"]], "tempo": stl["tempo"]}
+        if match(folded, ttl, bound) is None or (_tempo_off_line(case, k) and _notes_only(folded, ttl, bound)):
+            return "osu-circle-size-default"
+    # ---- O2Jam header tempo + tempo event at position 0, both written
+    if a == "o2j" and b == "bms" and _o2j_event_at_0(case, k):
+        return "o2j-tempo-at-0-duplicate"
+    # ---- reseated tempo list (tempo change off a measure line in a StepMania / BMS source): the notes are right
+    if a in ("sm", "bms") and _tempo_off_line(case, k) and _notes_only(stl, ttl, bound, sh):
+        return "tempo-reseated"
+    # ---- BMS ':.3f'
+    if b == "bms" and len(st) == len(tt) and any(v1 != v2 for (_, v1), (_, v2) in zip(st, tt)) \
+            and all(abs(v1 - v2) <= Fr(1, 1999) for (_, v1), (_, v2) in zip(st, tt)):
+        return "bms-bpm-3f-rounding"
+    # ---- StepMania tempo beats printed with two decimals
+    if b == "sm" and len(st) == len(tt) and len(st) > 1:
+        slack = sum(Fr(1, 200) * abs(Fr(60000) / st[i][1] - Fr(60000) / st[i - 1][1]) for i in range(1, len(st)))
+        if match(stl, ttl, lambda t: bound(t) + slack, shift=sh) is None and _tempo_off_centibeat(st):
+            return "sm-bpms-beat-2dp"
+    return None
+
+
+def _tempo_off_centibeat(st):
+    beat = Fr(0)
+    for i in range(1, len(st)):
+        beat += (st[i][0] - st[i - 1][0]) / (Fr(60000) / st[i - 1][1])
+        if abs(beat * 100 - round(beat * 100)) > Fr(1, 1000):
+            return True
+    return False
+
+
+def _notes_only(stl, ttl, bound, shift=0):
+    a = {"notes": stl["notes"], "tempo": []}
+    b = {"notes": ttl["notes"], "tempo": []}
+    return match(a, b, bound, shift=shift) is None
+
+
+def _o2j_event_at_0(case, k):
+    lv = case["file"]["levels"][k]
+    return any(p["ch"] == 1 and p["n"] > 0 and any(s == 0 and p["m"] == 0 and bytes(bs) != b"\0\0\0\0" for s, bs in p["ev"]) for p in lv)
+
+
+CORR_ONLY = {"bms-bpm-3f-rounding"}
+
+
+def classify(case, out, kind, sub=None):
+    if sub is None:
+        return None
+    cause = diagnose(case, out, sub)
+    if cause == "?":
+        # spec holds in python's eyes: a correspondence-only divergence.  Known: the ':.3f' tempo table of the BMS writer
+        # (a drift far below the resolution, but not the exact tempo)
+        if case["tgt"] == "bms":
+            stl = _src_tl(case, sub)
+            try:
+                ttl = tl_target(case, out["targets"][sub]["v"])
+            except Exception:
+                return None
+            st, tt = norm_tempo(stl["tempo"]), norm_tempo(ttl["tempo"])
+            if len(st) == len(tt) and any(v1 != v2 for (_, v1), (_, v2) in zip(st, tt)):
+                cause = "bms-bpm-3f-rounding"
+            else:
+                return None
+        else:
+            return None
+    if cause is None:
+        return None
+    return f"{case['src']}->{case['tgt']}:{cause}"
+
+
+# ====================================================================================== bookkeeping
+def nontrivial(case, out):
+    if "tls" in case:
+        return any(t["notes"] for t in case["tls"])
+    return True
+
+
+def _outcome(case, out):
+    tg = out.get("targets")
+    if tg is None:
+        return "raised"
+    if any(t["v"] is None for t in tg):
+        return "write-raised"
+    return "written"
+
+
+def bucket(case, out):
+    return f"{case['src']}->{case['tgt']}/{case.get('scen')}/{_outcome(case, out)}"
+
+
+def describe(case, out):
+    g = case.get("gen")
+    s = f"{case['src']}->{case['tgt']} keys={case['keys']} scen={case.get('scen')} {_outcome(case, out)}"
+    if g:
+        ab = g["abs"][0]
+        s += f" tempo={[(str(F.frac_from_json(b)), float(F.frac_from_json(v))) for b, v in ab['tempo']]} notes={len(ab['notes'])}"
+    if out.get("exc"):
+        s += " exc=" + out["exc"]
+    return s
+
+
+def shrink(case):
+    g = case.get("gen")
+    if not g:
+        return
+    abs_ = g["abs"]
+    for i, ab in enumerate(abs_):
+        for j in range(len(ab["notes"])):
+            na = copy.deepcopy(abs_)
+            del na[i]["notes"][j]
+            yield build_case(case["src"], case["tgt"], na, g["rseed"], g["opt"])
+    if len(abs_) == 2 and case["src"] == "sm":
+        yield build_case(case["src"], case["tgt"], abs_[:1], g["rseed"], g["opt"])
+    for i, ab in enumerate(abs_):
+        if len(ab["tempo"]) > 1:
+            na = copy.deepcopy(abs_)
+            for x in na:
+                if x["tempo"] == ab["tempo"]:
+                    x["tempo"] = x["tempo"][:-1]
+            yield build_case(case["src"], case["tgt"], na, g["rseed"], g["opt"])
+            break
